@@ -246,6 +246,10 @@ def graph_in_domain(ts, cfg):
     cfg["inverse_paths"] = True
     if len(set(ts)) != len(ts):
         return False
+    for s_, p_, o_ in ts:                     # blank-node identifiers start with "_:", IRI identifiers do not
+        for x in (s_, o_):
+            if x[0] != "L" and (x[0] == "B") != x[1].startswith("_:"):
+                return False
     inst, rep = path_report(ts, cfg)
     classes = {c for cs in inst.values() for c in cs}
     if len({pipespec.shape_label(c) for c in classes}) != len(classes):
@@ -374,7 +378,7 @@ def py_matches(v, ve, inst):
 class Spec(pipeprops.PropSpec):
     pid = "C03"
     theorems = ("C03_mode_off_keeps_cards, C03_mode_on_off, C03_relaxed_card_sound, C03_cardinalities(_binary64), "
-                "C03_opt_at_most_one, C03_conformance_partial(_exact), C03_conformance_checked (Props/C03.v)")
+                "C03_opt_at_most_one, C03_conformance(_exact), C03_conformance_partial(_exact), C03_conformance_checked (Props/C03.v)")
     projection = staticmethod(pipeprops.proj_figures)
     projection_name = ("full canonical structure: per shape label, instance count, constraints (direction, predicate, "
                        "value expression, cardinality, figures) and comments, order included; both runs (mode on / off)")
@@ -389,11 +393,11 @@ class Spec(pipeprops.PropSpec):
     assumptions = ["the ShExC text is parsed back by the harness canonicaliser (pipe.canon); a line it cannot parse "
                    "is reported as a failure", "typing = every selected instance paired with the label of each of its "
                    "classes (pipespec.spec_instances / shape_label, recomputed from the triples)",
-                   "C03_conformance_partial is conditional on the profile characterisation (premise profile_exact = P1, "
-                   "Proofs/ProfileChar.v); its boolean mirror profile_exactb is evaluated by the extracted model on "
-                   "every generated input whose configuration is in the domain (entry c03_premises) and must hold "
-                   "whenever strict_domb does; Coq's strict_domb and this module's graph_in_domain must agree on "
-                   "every such input (disagreement = internal error)",
+                   "C03_conformance needs no profile premise (Proofs/ConformBridge.v discharges it from P1); the boolean "
+                   "mirror profile_exactb of that premise is still evaluated by the extracted model on every generated "
+                   "input whose configuration is in the domain (entry c03_premises) and must hold whenever strict_domb "
+                   "does; Coq's strict_domb and this module's graph_in_domain must agree on every such input "
+                   "(disagreement = internal error)",
                    "the schema the theorems speak about (Model/SchemaOf.schema_of of the model's shapes) is compared "
                    "with the schema parsed from the implementation's text on every such input (entry c03_model_schema)"]
 
@@ -523,7 +527,8 @@ class Spec(pipeprops.PropSpec):
     def domain_note(self):
         return ("strict domain (strict_dom): keep_less_specific, threshold 0, all classes, default shapes namespace, no "
                 "disjunctions; per (class, property, direction) non-literal neighbours of one node kind, all untyped or "
-                "all instances of one single-typed class; classes are IRIs with distinct labels and are not instances. "
+                "all instances of one single-typed class; classes are IRIs with distinct labels and are not instances; "
+                "blank-node identifiers start with '_:' and IRI identifiers do not; no duplicate triple. "
                 "Outside it failures are attributed to C03-F1 (reference chosen on a count tie), C03-F2 (NONLITERAL "
                 "merge with an instance having both kinds) or C03-F3 (keep_less_specific=False)")
 
